@@ -39,6 +39,23 @@ theorem hcount_formula (T : Tables) (a : HAtom) (bv : Rat) :
     simp only [hcount, hh, electrons, hve, Option.map_some, hcountFree]
     omega
 
+/-- `formal_spin` is a signed integer (2·S; a beta-spin radical has a negative value): the count depends on it only
+through `|spin|` — flipping the sign of the spin changes nothing. -/
+theorem hcount_spin_sign (T : Tables) (a : HAtom) (bv : Rat) :
+    hcount T { a with spin := -a.spin } bv = hcount T a bv := by
+  simp only [hcount, electrons, Int.natAbs_neg]
+
+/-- the formula for a NEGATIVE formal spin, with the absolute value resolved: the unpaired electrons are
+subtracted (`− |spin| = + spin`), never added. -/
+theorem hcount_formula_negative_spin (T : Tables) (a : HAtom) (bv : Rat) (hs : a.spin < 0) (hh : a.hint = none)
+    (ve : Int) (hve : T.ve (T.group a.element) = some ve) :
+    (hcount T a bv : Int) = max 0 (4 - ((4 - (ve - a.charge + a.spin)).natAbs : Int) - bv.ceil) := by
+  have h := (hcount_formula T a bv).2 hh ve hve
+  have e : (a.spin.natAbs : Int) = -a.spin := by omega
+  rw [h, e]
+  congr 3
+  omega
+
 /-- `ceil` is the least integer not below the bonded valence -/
 theorem ceil_spec (q : Rat) : q ≤ (q.ceil : Rat) ∧ ∀ z : Int, q ≤ (z : Rat) → q.ceil ≤ z :=
   ⟨Rat.le_ceil, fun _ h => Rat.ceil_le_iff.2 h⟩
@@ -398,5 +415,12 @@ example : exMol.WF := by unfold Mol.WF; decide
 example : Orth exFrame.R ∧ exFrame.R.r3 = exFrame.v ∧ exFrame.v.norm2 = 1 ∧ exFrame.z.norm2 = 1 ∧
     exFrame.v.dot exFrame.z = 0 := by
   refine ⟨⟨?_, ?_, ?_, ?_, ?_, ?_⟩, ?_, ?_, ?_, ?_⟩ <;> decide +kernel
+
+/-- negative formal spin, concrete: bare neutral boron with spin −1 gets 2 hydrogens (not 4), neutral nitrogen with
+spin −1 and one single bond gets 3 (not 1) — as with spin +1 —, a bare oxygen with spin −2 gets 4 (not 0) -/
+example : hcount Molli.Gen.Valence.tables ⟨5, 0, -1, false, none⟩ 0 = 2 ∧
+    hcount Molli.Gen.Valence.tables ⟨7, 0, -1, false, none⟩ 1 = 3 ∧
+    hcount Molli.Gen.Valence.tables ⟨7, 0, 1, false, none⟩ 1 = 3 ∧
+    hcount Molli.Gen.Valence.tables ⟨8, 0, -2, false, none⟩ 0 = 4 := by decide +kernel
 
 end Molli.Props.C16
